@@ -30,6 +30,7 @@ import (
 
 	iec "github.com/nspcc-dev/neofs-node/internal/ec"
 	clientcore "github.com/nspcc-dev/neofs-node/pkg/core/client"
+	objectcore "github.com/nspcc-dev/neofs-node/pkg/core/object"
 	putsvc "github.com/nspcc-dev/neofs-node/pkg/services/object/put"
 	objutil "github.com/nspcc-dev/neofs-node/pkg/services/object/util"
 	"github.com/nspcc-dev/neofs-node/verif/lib/enumx"
@@ -252,17 +253,42 @@ func baseObject(typ object.Type) object.Object {
 	o.SetContainerID(cnrID)
 	o.SetOwner(owner)
 	o.SetType(typ)
-	if typ == object.TypeRegular {
+	var target oid.ID
+	target[0] = 7
+	switch typ {
+	case object.TypeRegular:
 		o.SetPayloadSize(uint64(len(payload)))
-	} else {
-		var target oid.ID
-		target[0] = 7
+	case object.TypeLock:
 		o.AssociateLocked(target)
+	case object.TypeTombstone:
+		o.AssociateDeleted(target)
+	case object.TypeLink:
+		var mo object.MeasuredObject
+		mo.SetObjectID(target)
+		mo.SetObjectSize(1)
+		var l object.Link
+		l.SetObjects([]object.MeasuredObject{mo})
+		o.WriteLink(l)
+		o.SetPayloadSize(uint64(len(o.Payload())))
+		o.SetFirstID(target)
 	}
 	h := sha256.Sum256([]byte("verif-put-obj-" + typ.String()))
 	o.SetID(oid.ID(h))
 	return o
 }
+
+// broadcast kinds: objects the policy wants on every part position of every EC list and on REP nodes
+var broadcastType = map[string]object.Type{"lock": object.TypeLock, "tombstone": object.TypeTombstone, "link": object.TypeLink, "children": object.TypeRegular}
+
+// content validation of TOMBSTONE / LINK objects on a container node is not under test: accept everything
+type okVerifier struct{}
+
+func (okVerifier) VerifyTombStoneWithoutPayload(context.Context, object.Object) error { return nil }
+func (okVerifier) VerifySplit(context.Context, cid.ID, oid.ID, []object.MeasuredObject) error {
+	return nil
+}
+
+var fmtValidator = objectcore.NewFormatValidator(nil, nil, nil, objectcore.WithTombVerifier(okVerifier{}), objectcore.WithSplitVerifier(okVerifier{}))
 
 type result struct {
 	err      error
@@ -293,7 +319,7 @@ func exec(c tcase) (res result) {
 	prm := putsvc.VerifTargetPrm{
 		Ctx: context.Background(), Net: w, ContainerNodes: cn, LocalStorage: w, Clients: w, Transport: w,
 		KeyStorage: keyStorage, LocalNodeSigner: signer, PostPlacement: w,
-		ECPart: iec.PartInfo{RuleIndex: -1, Index: -1},
+		ECPart: iec.PartInfo{RuleIndex: -1, Index: -1}, Fmt: fmtValidator,
 	}
 	if p.Initial {
 		var ip netmap.InitialPlacementPolicy
@@ -309,11 +335,20 @@ func exec(c tcase) (res result) {
 		prm.Initial = &ip
 	}
 	typ := object.TypeRegular
-	if c.Kind == "lock" {
-		typ = object.TypeLock
+	if t, ok := broadcastType[c.Kind]; ok {
+		typ = t
 	}
 	hdr := baseObject(typ)
 	pl := payload
+	if c.Kind == "children" { // client-sealed REGULAR object that lists children (legacy split parent/linking object)
+		var ch oid.ID
+		ch[0] = 9
+		hdr.SetChildren(ch)
+	}
+	if typ == object.TypeLink {
+		pl = hdr.Payload()
+		hdr.SetPayload(nil)
+	}
 	regular := typ == object.TypeRegular
 	// as Streamer.preparePrm
 	inSets := func(ls [][]int) bool {
@@ -351,10 +386,10 @@ func exec(c tcase) (res result) {
 			hdr.SetPayload(nil)
 		}
 	}
-	if c.Kind == "trusted" || c.Kind == "lock" {
+	if c.Kind == "trusted" || c.Kind == "lock" || c.Kind == "tombstone" || c.Kind == "link" {
 		prm.SessionSigner = signer
 	}
-	if !regular {
+	if !regular && typ != object.TypeLink {
 		pl = nil
 	}
 	func() {
@@ -460,18 +495,18 @@ func judge(c tcase, r result) (v verdict) {
 			return fail("ec-part:success-without-acknowledgement-from-the-rule-list", "EC part %d/%d acknowledged by no node of its list", j, c.PartIdx)
 		}
 		return v
-	case "lock", "sealed":
+	case "lock", "sealed", "tombstone", "link", "children":
 		for i := 0; i < nRep; i++ {
 			if got := bits.OnesCount32(full & listMask(p.Lists[i])); got < p.Reps[i] {
 				return fail("rep:success-with-fewer-acknowledgements-than-required:"+c.Kind, "REP rule #%d needs %d nodes of %v, %d acknowledged", i, p.Reps[i], p.Lists[i], got)
 			}
 		}
-		if c.Kind == "lock" {
-			// a LOCK is broadcast to the EC nodes as well; the text gives no number, so only the minimum is
-			// demanded: acknowledged by at least one node of every EC rule's own list
-			for j := range p.EC {
-				if full&listMask(p.Lists[nRep+j]) == 0 {
-					return fail("lock:success-without-any-acknowledgement-from-an-EC-list", "LOCK acknowledged by no node of EC list #%d %v", j, p.Lists[nRep+j])
+		if _, ok := broadcastType[c.Kind]; ok {
+			// TOMBSTONE/LOCK/LINK (and objects with children) are wanted on every part position of every EC
+			// list: a successful PUT needs DataPartNum+ParityPartNum acknowledging nodes of that list
+			for j, e := range p.EC {
+				if got := bits.OnesCount32(full & listMask(p.Lists[nRep+j])); got < e[0]+e[1] {
+					return fail("broadcast:success-with-fewer-acknowledgements-than-part-positions-on-an-EC-list", "%s: EC rule #%d (%d/%d over %v) needs %d acknowledging nodes of its list, %d acknowledged", c.Kind, j, e[0], e[1], p.Lists[nRep+j], e[0]+e[1], got)
 				}
 			}
 		}
@@ -784,7 +819,7 @@ func main() {
 	addEC := func(rules [][2]int, lens []int, nRep int, reps []int, withInitial bool) {
 		genLists(lens, func(lists [][]int, k int) {
 			p := policy{Lists: lists, Reps: reps, EC: rules}
-			kinds := []string{"trusted", "lock", "ec-part"}
+			kinds := []string{"trusted", "lock", "tombstone", "link", "ec-part"}
 			if nRep > 0 {
 				kinds = append(kinds, "sealed")
 			}
@@ -817,7 +852,10 @@ func main() {
 	// that kind is not enumerated for them. The other kinds (LOCK broadcast, client-sealed REGULAR, sealed EC
 	// part) are: they exercise the "EC list = list #(number of REP rules + i)" indexing with REP lists
 	// shorter and longer than the EC lists.
-	mixedKinds := []string{"lock", "sealed", "ec-part"}
+	mixedKinds := []string{"lock", "tombstone", "sealed", "ec-part"}
+	if thorough {
+		mixedKinds = []string{"lock", "tombstone", "link", "children", "sealed", "ec-part"}
+	}
 	addMixed := func(rules [][2]int, lens []int, reps []int) {
 		genLists(lens, func(lists [][]int, k int) {
 			jobs = append(jobs, job{policy{Lists: lists, Reps: reps, EC: rules}, k, mixedKinds})
@@ -956,7 +994,7 @@ func main() {
 	r.Set("outcome_classes", len(classes))
 	r.Set("outcome_class_counts", cl)
 	r.Set("policies", map[string]int{"one_rep_rule": nMain1, "two_rep_rules": nMain2, "three_rep_rules": nMain3, "ec": nEC})
-	r.Rule(fmt.Sprintf("policies up to renaming of the 5 universe nodes (lists = ordered tuples of distinct nodes, overlapping in every way): 1 REP rule lists 1..4 copies 1..4; 2 REP rules lists 1..4 copies 1..4; 3 REP rules lists 1..%d copies 1..%d (3-rule policies use at most 4 distinct nodes; quick: 2-rule lists of 4 only with the trusted kind); EC-only 2/1 and 1/1 (one rule over total..%d nodes, two rules incl. identical ones over total..3 nodes); REP+EC (1 REP list of 1..3 nodes + EC over total..4 nodes, 2 REP lists of 1..2 + EC 1/1 over 2..3; kinds LOCK, sealed REGULAR and sealed EC part only); for REP policies whose copies sum to <= %d (one rule: 4) and the smaller EC policies EVERY valid initial placement policy (all limit vectors, every MaxReplicas, PreferLocal on/off); x object kind (trusted REGULAR = node-side EC, client-sealed REGULAR, LOCK broadcast, sealed EC part of every rule/index) x local node = every node of the policy or none x ALL 2^n healthy-node vectors. distinct non-trivial = distinct cases with a mixed healthy vector (neither all nor none) in which at least one node was contacted", max3, rep3, maxEC, initSum))
+	r.Rule(fmt.Sprintf("policies up to renaming of the 5 universe nodes (lists = ordered tuples of distinct nodes, overlapping in every way): 1 REP rule lists 1..4 copies 1..4; 2 REP rules lists 1..4 copies 1..4; 3 REP rules lists 1..%d copies 1..%d (3-rule policies use at most 4 distinct nodes; quick: 2-rule lists of 4 only with the trusted kind); EC-only 2/1 and 1/1 (one rule over total..%d nodes, two rules incl. identical ones over total..3 nodes); REP+EC (1 REP list of 1..3 nodes + EC over total..4 nodes, 2 REP lists of 1..2 + EC 1/1 over 2..3; kinds LOCK, TOMBSTONE, sealed REGULAR, sealed EC part; thorough also LINK and a sealed REGULAR object with children); EC-only policies also with TOMBSTONE and LINK; for REP policies whose copies sum to <= %d (one rule: 4) and the smaller EC policies EVERY valid initial placement policy (all limit vectors, every MaxReplicas, PreferLocal on/off); x object kind (trusted REGULAR = node-side EC, client-sealed REGULAR, broadcast objects LOCK/TOMBSTONE/LINK/REGULAR-with-children, sealed EC part of every rule/index) x local node = every node of the policy or none x ALL 2^n healthy-node vectors. distinct non-trivial = distinct cases with a mixed healthy vector (neither all nor none) in which at least one node was contacted", max3, rep3, maxEC, initSum))
 	r.Exhaustive(!expired.Load())
 	r.Assume("each node answers deterministically (stores everything it is sent or refuses everything); the real code contacts nodes concurrently (WaitGroup.Go / errgroup), one Go-scheduler interleaving is observed per case - the oracle is schedule-independent (it only uses who acknowledged what)",
 		"the distribution target is assembled by an injected constructor mirroring Streamer.newDistrubutedWriter and driven like slicingTarget drives it (EC split modifier, WriteHeader, Write, Close); payload slicing, signature/format validation and the on-chain meta collection are outside this check",
